@@ -112,11 +112,30 @@ fn run_c14(line: &str) -> String {
         let before = otlp.metric_source().event_discarded();
         evt::with_event("hotlp::c14", &ext, &props, |e| otlp.emit(e));
         let flushed = otlp.blocking_flush(Duration::from_secs(20));
-        let discarded = otlp.metric_source().event_discarded() - before;
+        let after = otlp.metric_source().event_discarded();
+        let discarded = after - before;
         let log = w.collector.take_log();
 
         let mut hits: Vec<Signal> = Vec::new();
         let mut fail: Option<String> = None;
+        // the discard counter is a running total for every reader: a periodic reporter sampling the metric source must
+        // see it, and must not take it away from the accessor (or from the next sample)
+        {
+            use emit::metric::Source;
+            let sampled = |otlp: &emit_otlp::Otlp| {
+                let cell = std::cell::Cell::new(None);
+                otlp.metric_source().sample_metrics(emit::metric::sampler::from_fn(|m| {
+                    if m.name().get() == "event_discarded" {
+                        cell.set(m.value().by_ref().cast::<u64>());
+                    }
+                }));
+                cell.get()
+            };
+            let (s1, s2, a2) = (sampled(&otlp), sampled(&otlp), otlp.metric_source().event_discarded());
+            if s1 != Some(after as u64) || s2 != Some(after as u64) || a2 != after {
+                fail.get_or_insert(format!("sampling-the-metric-source-changed-event_discarded({:?},{:?},{}!={})", s1, s2, a2, after));
+            }
+        }
         for r in &log {
             if let Some(m) = &r.malformed {
                 fail.get_or_insert(format!("malformed-request({})", m));
